@@ -32,9 +32,11 @@ import (
 	"verif/harness/fakepg"
 )
 
+// default watchdogs; a run that reports a hang is repeated once with three times as much
+// (Cluster.slow) and the hang is believed only if it happens again
 const (
-	watchdog     = 20 * time.Second
-	watchdogLong = 60 * time.Second
+	watchdogBase     = 20 * time.Second
+	watchdogLongBase = 60 * time.Second
 )
 
 // AbsMsg is a message of specs/Gossip.tla (r = index into Lists; core flavour: x = 0, no signers).
@@ -137,7 +139,11 @@ type Cluster struct {
 	prod     []prodObs
 	ctx      context.Context
 	cancel   context.CancelFunc
+	slow     int // watchdog multiplier (1 or 3)
 }
+
+func (c *Cluster) wd() time.Duration     { return time.Duration(c.slow) * watchdogBase }
+func (c *Cluster) wdLong() time.Duration { return time.Duration(c.slow) * watchdogLongBase }
 
 func (c *Cluster) listIdx(ids []int) int {
 	for r, l := range c.Lists {
@@ -162,7 +168,7 @@ func (c *Cluster) listIdx(ids []int) int {
 // the KeyShareHandler service on the trigger channel.
 func NewCluster(w *World, u *Uni, lists [][]int) (*Cluster, error) {
 	ctx, cancel := context.WithCancel(context.Background())
-	c := &Cluster{W: w, U: u, Lists: lists, ctx: ctx, cancel: cancel}
+	c := &Cluster{W: w, U: u, Lists: lists, ctx: ctx, cancel: cancel, slow: 1}
 	var err error
 	c.Chain, err = newChainNode(w)
 	if err != nil {
@@ -308,10 +314,10 @@ func (c *Cluster) relay(k *Keyper) {
 				select {
 				case r := <-ev.Result():
 					t.Ksh = c.classifyKsh(r.Error, before)
-				case <-time.After(watchdogLong):
+				case <-time.After(c.wdLong()):
 					t.Ksh = "hang"
 				}
-			case <-time.After(watchdog):
+			case <-time.After(c.wd()):
 				t.Ksh = "hang"
 			case <-c.ctx.Done():
 				t.Ksh = "closed"
@@ -522,9 +528,9 @@ func (c *Cluster) Cmt(n int, cm Cmt, f string) J {
 	var v pubsub.ValidationResult
 	var herr error
 	handled := false
-	ctx, cancel := context.WithTimeout(c.ctx, watchdogLong)
+	ctx, cancel := context.WithTimeout(c.ctx, c.wdLong())
 	defer cancel()
-	p, h := guard(watchdog, func() {
+	p, h := guard(c.wd(), func() {
 		pm := pubsubMessage(99, topic, data)
 		v = k.msg.real.VerifGossipvalCombinedValidator(topic)(ctx, pm.ReceivedFrom, pm)
 		if v != pubsub.ValidationAccept {
@@ -559,7 +565,7 @@ func (c *Cluster) Cmt(n int, cm Cmt, f string) J {
 		}
 	}
 	// the KeyShareHandler works on the triggers asynchronously: wait for it
-	if !k.settle(2*watchdogLong) && line["hang"] == "" {
+	if !k.settle(2*c.wdLong()) && line["hang"] == "" {
 		line["hang"] = "KeyShareHandler does not finish"
 	}
 	k.mu.Lock()
@@ -618,11 +624,11 @@ func (c *Cluster) Dlv(dest int, m AbsMsg, drain bool) J {
 	pk := c.inflight[idx]
 	c.inflight = append(c.inflight[:idx:idx], c.inflight[idx+1:]...)
 	k := c.Kp[dest]
-	ctx, cancel := context.WithTimeout(c.ctx, watchdogLong)
+	ctx, cancel := context.WithTimeout(c.ctx, c.wdLong())
 	defer cancel()
 	var v pubsub.ValidationResult
 	var herr string
-	p, h := guard(watchdog, func() {
+	p, h := guard(c.wd(), func() {
 		pm := pubsubMessage(pk.from, pk.topic, pk.data)
 		v = k.msg.real.VerifGossipvalCombinedValidator(pk.topic)(ctx, pm.ReceivedFrom, pm)
 		if v != pubsub.ValidationAccept {
@@ -669,11 +675,17 @@ func (c *Cluster) Dup(dest int, m AbsMsg) J {
 
 func (c *Cluster) Drop(dest int, m AbsMsg) J {
 	line := J{"k": "drop", "n": dest, "m": m, "verdict": "-", "err": "", "panic": "", "hang": "", "missing": false, "prod": []prodObs{}}
-	idx := c.find(m, dest)
-	if idx < 0 {
+	// the model's loss removes the packet from the bag, i.e. every copy of it (GossipMC!DropShare)
+	if c.find(m, dest) < 0 {
 		line["missing"] = true
 	} else {
-		c.inflight = append(c.inflight[:idx:idx], c.inflight[idx+1:]...)
+		var keep []*packet
+		for _, p := range c.inflight {
+			if !(p.dest == dest && p.abs.key() == m.key()) {
+				keep = append(keep, p)
+			}
+		}
+		c.inflight = keep
 	}
 	line["tabs"] = c.Tabs()
 	return line
@@ -755,10 +767,10 @@ func (c *Cluster) Sync(n int, f syncFault) J {
 		}
 		return fakepg.None
 	})
-	ctx, cancel := context.WithTimeout(c.ctx, 2*watchdogLong)
+	ctx, cancel := context.WithTimeout(c.ctx, 2*c.wdLong())
 	defer cancel()
 	var err error
-	p, h := guard(watchdogLong, func() { err = k.sync.Sync(ctx) })
+	p, h := guard(c.wdLong(), func() { err = k.sync.Sync(ctx) })
 	k.srv.SetFault(nil)
 	c.Chain.arm(nil)
 	line["panic"], line["hang"] = p, h
